@@ -1,8 +1,10 @@
 package checks
 
 import (
+	"bytes"
 	"crypto/ecdsa"
 	"crypto/ed25519"
+	"crypto/x509"
 	"encoding/json"
 	"fmt"
 	"math/big"
@@ -22,7 +24,7 @@ func init() {
 		ID: "C16",
 		Rule: "cases: public keys of the five types; EC points are also constructed from a chosen x (0..3 leading zero bytes, y by modular square root) so that fixed-width encoding of short coordinates is exercised for every curve, and searched for leading-zero y. Each key: GetPublicKeyJWK -> kty/crv/width checks against own fixed-width encoding -> jwsutil.JWK.UnmarshalJSON round trip -> commitment equality with the reference; then labelled bad JWKs (leading zero dropped/added, trailing byte, one bit flipped in x or y and verified off-curve with the curve equation, curve name swapped, missing coordinate) must be rejected by UnmarshalJSON and by VerifySignature. distinct = (curve, leading zero bytes in x, in y, mutation).",
 		Assumptions: []string{"math/big modular arithmetic and curve parameters from crypto/elliptic and btcec", "harness base64url codec"},
-		Require:     []string{"roundtrip", "leading-zero-x", "leading-zero-y", "bad-jwk", "ed25519"},
+		Require:     []string{"roundtrip", "leading-zero-x", "leading-zero-y", "bad-jwk", "ed25519", "public-key-bytes", "x-at-or-above-group-order"},
 		Run:         runC16,
 	})
 }
@@ -126,6 +128,39 @@ func runC16(r *fw.Runner) {
 				})
 			}
 		}
+		// valid points whose x coordinate is >= the group order N (x ranges over the field, not over the scalars)
+		for b := 0; b < r.N(2, 10); b++ {
+			r.Case("ec-x-above-order-"+typ, func(c *fw.Case) {
+				cv := gen.Curve(typ)
+				n, p := cv.Params().N, cv.Params().P
+				if n.Cmp(p) >= 0 {
+					return // P-521's order exceeds... (never for these curves, but be safe)
+				}
+				span := new(big.Int).Sub(p, n)
+				found := 0
+				for k := 0; k < 4000 && found < 4; k++ {
+					off := new(big.Int).SetBytes(c.Rng.Bytes(20))
+					off.Mod(off, span)
+					x := new(big.Int).Add(n, off)
+					if k < 200 {
+						x = new(big.Int).Add(n, big.NewInt(int64(k)))
+					}
+					rhs := new(big.Int).Exp(x, big.NewInt(3), p)
+					if typ != gen.Secp256k1 {
+						rhs.Sub(rhs, new(big.Int).Mul(x, big.NewInt(3)))
+					}
+					rhs.Add(rhs, cv.Params().B)
+					rhs.Mod(rhs, p)
+					y := new(big.Int).ModSqrt(rhs, p)
+					if y == nil || !cv.IsOnCurve(x, y) {
+						continue
+					}
+					found++
+					c.Count("x-at-or-above-group-order", 1)
+					c16EC(c, typ, x, y)
+				}
+			})
+		}
 		// searched keys (leading-zero y appears with probability 1/256 per key)
 		for b := 0; b < r.N(8, 200); b++ {
 			r.Case("ec-searched-"+typ, func(c *fw.Case) {
@@ -196,6 +231,30 @@ func c16EC(c *fw.Case, typ string, x, y *big.Int) {
 		if back.Kty != "EC" || back.Crv != typ {
 			c.Failf("read-back-kty-crv", map[string]interface{}{"jwk": string(jb), "kty": back.Kty, "crv": back.Crv}, "read-back JWK reports kty=%q crv=%q", back.Kty, back.Crv)
 		}
+	}
+	// the key read back exposes the same public key bytes as the original key
+	if err := func() error {
+		var rb jwsutil.JWK
+		if err := rb.UnmarshalJSON(jb); err != nil {
+			return nil // reported above
+		}
+		pkb, err := rb.PublicKeyBytes()
+		if err != nil {
+			return fmt.Errorf("PublicKeyBytes failed: %v", err)
+		}
+		var want []byte
+		if typ == gen.Secp256k1 {
+			want = append([]byte{2 + byte(y.Bit(0))}, xb...) // SEC1 compressed
+		} else {
+			want, _ = x509.MarshalPKIXPublicKey(pub)
+		}
+		c.Count("public-key-bytes", 1)
+		if !bytes.Equal(pkb, want) {
+			return fmt.Errorf("PublicKeyBytes = %x, the key's encoding is %x", pkb, want)
+		}
+		return nil
+	}(); err != nil {
+		c.Failf("public-key-bytes-differ", map[string]interface{}{"jwk": string(jb), "problem": err.Error()}, "key read back from its JWK does not expose the original key bytes: %v", err)
 	}
 	// commitment computed from the library JWK equals the reference over the fixed-width JWK
 	wantC, _ := oracle.Commitment(18, wantJWK)
